@@ -25,7 +25,7 @@ class PDDLTokenizer:
                 self.pddl_file_content = pddl_file.readlines()
 
         else:
-            self.pddl_file_content = pddl_str.replace("\t", "").split("\n")
+            self.pddl_file_content = pddl_str.replace("\t", " ").split("\n")
 
     def _is_comment_line(self, line: str) -> bool:
         """Indicates whither or not a line is a comment line
@@ -62,8 +62,11 @@ class PDDLTokenizer:
         token = tokens.popleft()
         if token == "(":
             expression = []
-            while tokens[0] != ")":
+            while len(tokens) > 0 and tokens[0] != ")":
                 expression.append(self.read_from_tokens(tokens))
+
+            if len(tokens) == 0:
+                raise SyntaxError("Unexpected EOF - missing closing parenthesis")
 
             tokens.popleft()  # pop off ')'
             return expression
@@ -78,4 +81,11 @@ class PDDLTokenizer:
 
         :return: the list of expressions that represent the PDDL file.
         """
-        return self.read_from_tokens(self.tokenize())
+        tokens = self.tokenize()
+        expression = self.read_from_tokens(tokens)
+        if len(tokens) > 0:
+            raise SyntaxError(
+                f"Unexpected tokens after the end of the top level expression - {tokens[0]}"
+            )
+
+        return expression
